@@ -146,6 +146,16 @@ type concRun struct {
 	Descr  []string
 	TrVals map[string]bool // values written through a transaction (never in the journal)
 	Stor   *harness.World
+	Dur    []durRec // writes acknowledged with the sync option (or committed transactions)
+}
+
+// durRec: a write whose acknowledgement promises durability; AckPos is the length of the
+// storage-operation log when the call returned.
+type durRec struct {
+	Batch  model.Batch
+	Call   int64
+	Return int64
+	AckPos int
 }
 
 func getVal(v []byte, err error) (string, string) {
@@ -214,6 +224,17 @@ func runConc(p *concParams, prefix []int, extra func(w *harness.World, cr *concR
 						t, arg = op[:i], op[i+1:]
 					}
 					val := fmt.Sprintf("c%d.%d", ci, oi)
+					var wo *opt.WriteOptions
+					if len(t) > 1 && t[0] == 'S' {
+						// "S<op>": the same write with WriteOptions.Sync
+						t = t[1:]
+						wo = &opt.WriteOptions{Sync: true}
+					}
+					durable := func(b model.Batch, call int64, err error) {
+						if err == nil && (wo != nil || t == "tr") {
+							cr.Dur = append(cr.Dur, durRec{Batch: b, Call: call, Return: clock, AckPos: len(w.Stor.Ops)})
+						}
+					}
 					switch t {
 					case "putL":
 						// a value large enough to exceed the merge capacity of a 64-byte write buffer
@@ -222,13 +243,15 @@ func runConc(p *concParams, prefix []int, extra func(w *harness.World, cr *concR
 					case "put":
 						b := model.Batch{{K: arg, V: val}}
 						call := tick()
-						err := db.Put([]byte(arg), []byte(val), nil)
+						err := db.Put([]byte(arg), []byte(val), wo)
 						record(ci, linInput{Kind: "write", Batch: b}, call, linOutput{Err: errStr(err)}, op)
+						durable(b, call, err)
 					case "del":
 						b := model.Batch{{Del: true, K: arg}}
 						call := tick()
-						err := db.Delete([]byte(arg), nil)
+						err := db.Delete([]byte(arg), wo)
 						record(ci, linInput{Kind: "write", Batch: b}, call, linOutput{Err: errStr(err)}, op)
+						durable(b, call, err)
 					case "w", "tr":
 						var mb model.Batch
 						lb := new(leveldb.Batch)
@@ -251,7 +274,7 @@ func runConc(p *concParams, prefix []int, extra func(w *harness.World, cr *concR
 						call := tick()
 						var err error
 						if t == "w" {
-							err = db.Write(lb, nil)
+							err = db.Write(lb, wo)
 						} else {
 							var tr *leveldb.Transaction
 							tr, err = db.OpenTransaction()
@@ -266,6 +289,7 @@ func runConc(p *concParams, prefix []int, extra func(w *harness.World, cr *concR
 							}
 						}
 						record(ci, linInput{Kind: "write", Batch: mb}, call, linOutput{Err: errStr(err)}, op)
+						durable(mb, call, err)
 					case "get":
 						call := tick()
 						v, e := getVal(db.Get([]byte(arg), nil))
